@@ -769,6 +769,18 @@ func frozenParamName(p *ssa.Parameter) string {
 	if !ok {
 		return p.Name()
 	}
+	if o := paramOrder(fn); o != nil && len(o) == len(names) {
+		// a reordered signature: the frozen name follows the parameter
+		for j, q := range fn.Params {
+			if q == p {
+				for i := range o {
+					if o[i] == j {
+						return names[i]
+					}
+				}
+			}
+		}
+	}
 	for i, q := range fn.Params {
 		if q == p {
 			if i < len(names) && len(names) == len(fn.Params) {
@@ -794,4 +806,127 @@ func frozenFreeVarName(v *ssa.FreeVar) string {
 		}
 	}
 	return v.Name()
+}
+
+// paramOrder: order[i] is today's position (index into fn.Params, receiver included) of the parameter that had position
+// i when the tables were frozen. Identity unless the signature was REORDERED: either the parameters carry exactly the
+// frozen names in another order, or (names changed too) their types are pairwise distinct and the same set as the
+// frozen types. Rules follow the parameter, not the position: frozenParamName and argValue translate through this.
+var paramOrderCache = map[*ssa.Function][]int{}
+
+func paramOrder(fn *ssa.Function) []int {
+	if o, ok := paramOrderCache[fn]; ok {
+		return o
+	}
+	var order []int
+	defer func() { paramOrderCache[fn] = order }()
+	names, ok := frozenParams[FuncKey(fn)]
+	if !ok || len(names) != len(fn.Params) || len(names) < 2 {
+		return nil
+	}
+	same := true
+	cur := map[string]int{}
+	for i, q := range fn.Params {
+		if q.Name() != names[i] {
+			same = false
+		}
+		if _, dup := cur[q.Name()]; dup || q.Name() == "_" || q.Name() == "" {
+			cur = nil
+			break
+		}
+		cur[q.Name()] = i
+	}
+	if same {
+		return nil
+	}
+	if cur != nil {
+		byName := make([]int, len(names))
+		okAll := true
+		for i, n := range names {
+			j, has := cur[n]
+			if !has {
+				okAll = false
+				break
+			}
+			byName[i] = j
+		}
+		if okAll {
+			order = byName
+			return order
+		}
+	}
+	// by type
+	fp, ok := frozenSigs[FuncKey(fn)]
+	if !ok {
+		return nil
+	}
+	off := 0
+	if k := strings.Index(fp, "|("); k >= 0 {
+		fp = fp[k+1:]
+		off = 1
+	}
+	if !strings.HasPrefix(fp, "(") {
+		return nil
+	}
+	depth, start := 0, 1
+	var ftypes []string
+	end := -1
+	for k := 0; k < len(fp) && end < 0; k++ {
+		switch fp[k] {
+		case '(', '[', '{':
+			depth++
+		case ')', ']', '}':
+			depth--
+			if depth == 0 {
+				if k > start {
+					ftypes = append(ftypes, fp[start:k])
+				}
+				end = k
+			}
+		case ',':
+			if depth == 1 {
+				ftypes = append(ftypes, fp[start:k])
+				start = k + 1
+			}
+		}
+	}
+	if len(ftypes)+off != len(fn.Params) {
+		return nil
+	}
+	q := func(p *types.Package) string { return p.Path() }
+	curT := map[string]int{}
+	for i := off; i < len(fn.Params); i++ {
+		t := types.TypeString(fn.Params[i].Type(), q)
+		if _, dup := curT[t]; dup {
+			return nil
+		}
+		curT[t] = i
+	}
+	byType := make([]int, len(fn.Params))
+	seen := map[string]bool{}
+	moved := false
+	for i, t := range ftypes {
+		j, has := curT[t]
+		if !has || seen[t] {
+			return nil
+		}
+		seen[t] = true
+		byType[i+off] = j
+		if j != i+off {
+			moved = true
+		}
+	}
+	if !moved {
+		return nil
+	}
+	order = byType
+	return order
+}
+
+// permutedIndex translates a frozen parameter position (index into fn.Params, receiver included) into today's.
+func permutedIndex(fn *ssa.Function, i int) int {
+	if o := paramOrder(fn); o != nil && i >= 0 && i < len(o) {
+		return o[i]
+	}
+	return i
 }
